@@ -262,12 +262,13 @@ def r3_leaf_and_root(ctx, outs, key):
                 flag_ok = True
     ctx.ob(rule, SEARCH, 'maximising flag = maximize_score(board.turn())', flag_ok, expected='current_player.maximize_score()')
     ms = 'chess::board::color::Color::maximize_score'
-    outs_m = Engine(facts, fold_only=()).run(ms)
+    # evaluated per colour (any spelling: match, matches!, ==)
+    cdv = {c: facts.variant_discr('chess::board::color::Color', c) for c in ('White', 'Black')}
     tbl = {}
-    for o in outs_m:
-        if o.kind == 'return' and is_const(o.value):
-            d = dict(o.conds).get(('discr', ('der', ('p', 1))))
-            tbl[d] = o.value[1]
+    for cname, cterm in (('White', WHITE), ('Black', BLACK)):
+        outs_m = [o for o in Engine(facts, fold_only=()).run(ms, args=[('ref', ('K', cterm))]) if o.kind != 'abort']
+        if len(outs_m) == 1 and outs_m[0].kind == 'return' and is_const(outs_m[0].value):
+            tbl[cdv[cname]] = bool(outs_m[0].value[1])
     cd = {c: facts.variant_discr('chess::board::color::Color', c) for c in ('White', 'Black')}
     ctx.ob(rule, ms, 'White maximises, Black minimises', tbl.get(cd['White']) is True and tbl.get(cd['Black']) is False, found=tbl, expected={cd['White']: True, cd['Black']: False})
     return outs_s
